@@ -226,8 +226,6 @@ Acyclic(r) ==   \* no rule variable reaches itself through other rule variables 
   LET step(R) == R \cup UNION {RuleRefs(r, m) : m \in R}
   IN  \A n \in Names(r.vars) : n \notin step(step(step(RuleRefs(r, n))))
 
-SegsEmpty(sg) == sg = <<>>
-
 ---------------------------------------------------------------------------
 (* The loader: one action per kind of statement *)
 Init ==
